@@ -524,9 +524,9 @@ func (lc *linCtx) siteName(s indexSite) string {
 		if s.hi != nil {
 			hi = lc.of(s.hi).String()
 		}
-		return fmt.Sprintf("%s[%s:%s]", lc.canon(s.base), lo, hi)
+		return stable(fmt.Sprintf("%s[%s:%s]", lc.canon(s.base), lo, hi))
 	}
-	return fmt.Sprintf("%s[%s]", lc.canon(s.base), lc.of(s.idx).String())
+	return stable(fmt.Sprintf("%s[%s]", lc.canon(s.base), lc.of(s.idx).String()))
 }
 
 // rowSites selects every index into a row buffer.
@@ -1005,7 +1005,7 @@ func (c *Ctx) checkBufferTranslateLoop() {
 			if ia, ok := in.(*ssa.IndexAddr); ok && lc.isRowBuffer(ia.X) {
 				g := consLT(lc.of(ia.Index), lc.lenOf(ia.X), "index < len")
 				ok, det := lc.proveAll(ia.Block(), nil, g)
-				nm := "read " + lc.of(ia.Index).String() + " below len"
+				nm := "read " + stable(lc.of(ia.Index).String()) + " below len"
 				if ok {
 					L.OK("codon-loop", r.label, nm, c.P.Pos(ia.Pos()), det)
 				} else {
